@@ -40,6 +40,7 @@ theorem alpha_e (hν : Adm ν) (n : Nat) (ih : AlphaAt ν n) (ctx : Ctx) (env : 
   | «for» i c s b => simp only [rnE, evalE, ih.e, ih.for_]
   | forIn x coll b => simp only [rnE, evalE, ih.e, length_names, ih.forIn]
   | call f args => simp only [rnE, evalE, ih.e, ih.args, ih.call]
+  | pipe l f args => simp only [rnE, evalE, ih.e, ih.args, ih.call]
   | builtin b args => simp only [rnE, evalE, ih.args]
   | lam fn =>
     obtain ⟨id, nm, ps, r, body, cs⟩ := fn
